@@ -24,13 +24,13 @@ import (
 // is run on generated Go files.
 
 type ptField struct {
-	names   []string // empty: embedded
-	embed   string   // embedded type expression
-	typ     string
-	rtyp    reflect.Type
-	tags    []ptTag // existing tags, in order
-	rawTag  string  // when set: a tag literal that does not parse
-	hasLit  bool
+	names  []string // empty: embedded
+	embed  string   // embedded type expression
+	typ    string
+	rtyp   reflect.Type
+	tags   []ptTag // existing tags, in order
+	rawTag string  // when set: a tag literal that does not parse
+	hasLit bool
 }
 type ptTag struct{ key, name, opts string }
 
@@ -100,7 +100,9 @@ func firstRune(s string) (rune, int) {
 	}
 	return 0, 0
 }
-func isLowerRune(r rune) bool { return r >= 'a' && r <= 'z' || (r > 127 && strings.ToLower(string(r)) == string(r) && strings.ToUpper(string(r)) != string(r)) }
+func isLowerRune(r rune) bool {
+	return r >= 'a' && r <= 'z' || (r > 127 && strings.ToLower(string(r)) == string(r) && strings.ToUpper(string(r)) != string(r))
+}
 
 var ptTypes = []struct {
 	src string
